@@ -758,7 +758,7 @@ static int evOk(const Ev& e) { return &e == g_evPtr ? 1 : 0; }
 
 // user state: every class of the machine (head, states, injections) carries a counter of the callbacks delivered to that very
 // object; it is part of what a copy-constructed machine must carry over
-template <typename TOwner> struct Visits { mutable unsigned visits = 0; };
+template <typename TOwner> struct Visits { mutable unsigned visits = 0x5A5A5A00u; };		// (bits set in every byte: stray writes into user state show)
 #if VH_VIRT
 #define VH_VIRTUAL virtual
 #define VH_NOEXCEPT noexcept
